@@ -32,7 +32,7 @@ def from_replay(j):
     hist = [(t, tup(op)) for t, op in sc["hist"]]
     pre = [tuple(p) for p in sc["pre"]]
     progs = [(t, [tup(o) for o in ops]) for t, ops in sc.get("progs", [])]
-    sched = tuple(sc["sched"]) if sc.get("sched") else None
+    sched = tuple(tuple(x) if isinstance(x, list) and i == 2 else x for i, x in enumerate(sc["sched"])) if sc.get("sched") else None
     return [Scen(sid=sc["sid"], kinds=sc["kinds"], defs=defs, hist=hist, pre=pre, f1=sc["f1"],
                  fp=[tuple(x) for x in sc["fp"]], fuel=sc["fuel"], npids=sc["npids"], nuids=sc["nuids"],
                  sched=sched, progs=progs, unw=sc.get("unw", []), meta=sc.get("meta", {}))]
